@@ -63,7 +63,13 @@ pub struct Case {
     /// when > 0: a `Content-Type` field from CONTENT_TYPE_EDGES (short or odd parameter sections) is added; it is reported verbatim
     #[serde(default)]
     pub ctype_edge: u8,
+    /// when > 0 and the response is chunked: Content-Length fields from CL_NEXT_TO_CHUNKED are sent as well; chunked framing
+    /// overrides them (C03), and like any other field they are reported as sent
+    #[serde(default)]
+    pub cl_next_to_chunked: u8,
 }
+
+pub const CL_NEXT_TO_CHUNKED: &[&[&str]] = &[&["7"], &["3", "5"], &["abc"], &["1, 2"], &["-1"], &["0", "0"], &["18446744073709551616"]];
 
 pub const CONTENT_TYPE_EDGES: &[&str] = &["text/html;", "text/html; ", "text/plain; q=0.9", "application/x;v=1", "text/html; charset", "a/b;charset=", "text/plain;;", "text/plain; CHARSET=UTF-8", "text/plain;charset=\"utf-8\""];
 
@@ -238,9 +244,9 @@ identical result for every segmentation. non-trivial = >=2 fields and one of {du
             proptest::collection::vec(seg(), 1..4),
             // special long-line classes
             prop_oneof![8 => Just(0u8), 2 => Just(1u8), 1 => Just(2u8)],
-            (prop_oneof![12 => Just(0u8), 1 => Just(1u8), 1 => Just(2u8), 1 => Just(3u8)], prop_oneof![5 => Just(0u8), 1 => Just(1u8), 1 => Just(2u8)], prop::bool::weighted(0.15), prop::bool::weighted(0.15), prop_oneof![4 => Just(0u8), 1 => 1u8..=CONTENT_TYPE_EDGES.len() as u8]),
+            (prop_oneof![12 => Just(0u8), 1 => Just(1u8), 1 => Just(2u8), 1 => Just(3u8)], prop_oneof![5 => Just(0u8), 1 => Just(1u8), 1 => Just(2u8)], prop::bool::weighted(0.15), prop::bool::weighted(0.15), prop_oneof![4 => Just(0u8), 1 => 1u8..=CONTENT_TYPE_EDGES.len() as u8], prop_oneof![3 => Just(0u8), 1 => 1u8..=CL_NEXT_TO_CHUNKED.len() as u8]),
         )
-            .prop_map(|(status, version, reason, max_headers, fill, mut headers, chunked, segs, long, (big_limit, coded, via_redirect, conn_names, ctype_edge))| {
+            .prop_map(|(status, version, reason, max_headers, fill, mut headers, chunked, segs, long, (big_limit, coded, via_redirect, conn_names, ctype_edge, cl_next_to_chunked))| {
                 match long {
                     1 => {
                         if let Some(h) = headers.first_mut() {
@@ -268,6 +274,7 @@ identical result for every segmentation. non-trivial = >=2 fields and one of {du
                     via_redirect,
                     conn_names,
                     ctype_edge,
+                    cl_next_to_chunked,
                 }
             })
             .boxed()
@@ -328,6 +335,18 @@ identical result for every segmentation. non-trivial = >=2 fields and one of {du
             n_other += 1;
             count += 1;
             ctx.label("content-type-with-an-odd-parameter-section");
+        }
+        if case.chunked && case.cl_next_to_chunked > 0 {
+            let vals = CL_NEXT_TO_CHUNKED[(case.cl_next_to_chunked as usize - 1) % CL_NEXT_TO_CHUNKED.len()];
+            if count + vals.len() <= m {
+                for (k, v) in vals.iter().enumerate() {
+                    let at = (case.fill as usize / (11 + k)) % (fields.len() + 1);
+                    fields.insert(at, (if k == 0 { "Content-Length" } else { "content-length" }.to_string(), v.as_bytes().to_vec(), false));
+                }
+                n_other += vals.len();
+                count += vals.len();
+                ctx.label("content-length-fields-next-to-chunked");
+            }
         }
         let te_pos = if case.chunked { Some(((case.fill as usize ^ 0x5a5a) % (n_other + 1)).min(n_other)) } else { None };
 
